@@ -533,6 +533,13 @@ pub fn v_format2_str(lit: &str, a: &str, b: &str) -> (r: String)
         _ => unreachable!("R-fmt applied to an unknown literal"),
     }
 }
+/// R-std: `ItemPath::from_iter([name.into()])` (FromIterator over an array; trusted wrapper whose body is the original
+/// expression; the path is only used in the text of an error message)
+#[verifier::external_body]
+pub fn v_item_path_single(name: String) -> (r: crate::grammar::ItemPath)
+{
+    crate::grammar::ItemPath::from_iter([name.into()])
+}
 /// R-std: `x.strip_prefix(lit).unwrap_or(&x)` (trusted wrapper whose body is the original expression)
 #[verifier::external_body]
 pub fn v_strip_prefix_or_self<'a>(x: &'a String, lit: &str) -> (r: &'a str)
@@ -549,7 +556,56 @@ pub fn v_function_body_field(field: String, function_name: String) -> (r: crate:
     crate::semantic::types::FunctionBody::field(field, function_name)
 }
 }
+pub mod strset {
+use vstd::prelude::*;
 verus!{
+broadcast use super::group_pyxis_axioms;
+/// R-std: `s.iter().map(f).collect::<HashSet<String>>()` (verified)
+pub fn v_map_collect_string_set<T, F: Fn(&T) -> String>(s: &[T], f: F, Ghost(vals): Ghost<Seq<String>>) -> (r: std::collections::HashSet<String>)
+    requires
+        vals.len() == s@.len(),
+        forall|i: int| 0 <= i < s@.len() ==> f.requires((&#[trigger] s@[i],)),
+        forall|i: int, o: String| 0 <= i < s@.len() && #[trigger] f.ensures((&s@[i],), o) ==> o == vals[i],
+    ensures r@ == vals.to_set(),
+{
+    let mut out: std::collections::HashSet<String> = std::collections::HashSet::new();
+    let mut i: usize = 0;
+    while i < s.len()
+        invariant
+            i <= s.len(), vals.len() == s@.len(),
+            out@ == vals.take(i as int).to_set(),
+            forall|k: int| 0 <= k < s@.len() ==> f.requires((&#[trigger] s@[k],)),
+            forall|k: int, o: String| 0 <= k < s@.len() && #[trigger] f.ensures((&s@[k],), o) ==> o == vals[k],
+        decreases s.len() - i,
+    {
+        let x = f(&s[i]);
+        out.insert(x);
+        proof {
+            assert(vals.take(i as int + 1) == vals.take(i as int).push(vals[i as int]));
+            assert(vals.take(i as int).push(vals[i as int]).to_set() =~= vals.take(i as int).to_set().insert(vals[i as int])) by {
+                let a = vals.take(i as int); let v = vals[i as int];
+                assert forall|x: String| a.push(v).to_set().contains(x) <==> a.to_set().insert(v).contains(x) by {
+                    if a.push(v).contains(x) { let j = choose|j: int| 0 <= j < a.push(v).len() && a.push(v)[j] == x; if j < a.len() { assert(a[j] == x); } }
+                    if a.contains(x) { let j = choose|j: int| 0 <= j < a.len() && a[j] == x; assert(a.push(v)[j] == x); }
+                    if x == v { assert(a.push(v)[a.len() as int] == x); }
+                }
+            }
+            assert(out@ =~= vals.take(i as int + 1).to_set());
+        }
+        i += 1;
+    }
+    proof { assert(vals.take(s@.len() as int) == vals); }
+    out
+}
+}
+}
+#[allow(unused_imports)] pub use strset::v_map_collect_string_set;
+
+/// its own module: only the hash-map axioms are in scope (the crate's broadcast groups made these proofs unstable)
+pub mod filterkeys {
+use vstd::prelude::*;
+verus!{
+broadcast use super::axiom_key_itempath;
 /// R-std: `m.iter().filter(|(_, v)| P(v)).map(|(k, _)| k.clone()).collect::<Vec<_>>()` over the registry map
 /// (**verified**, on vstd's iterator model of `HashMap::iter`): the keys whose value satisfies the predicate, each
 /// exactly as often as the map holds it (once); the order is the map's iteration order and is not specified
@@ -619,49 +675,6 @@ pub fn v_filter_keys<F: Fn(&crate::semantic::types::ItemDefinition) -> bool>(m: 
     }
     out
 }
-} // verus!
-
-pub mod strset {
-use vstd::prelude::*;
-verus!{
-broadcast use super::group_pyxis_axioms;
-/// R-std: `s.iter().map(f).collect::<HashSet<String>>()` (verified)
-pub fn v_map_collect_string_set<T, F: Fn(&T) -> String>(s: &[T], f: F, Ghost(vals): Ghost<Seq<String>>) -> (r: std::collections::HashSet<String>)
-    requires
-        vals.len() == s@.len(),
-        forall|i: int| 0 <= i < s@.len() ==> f.requires((&#[trigger] s@[i],)),
-        forall|i: int, o: String| 0 <= i < s@.len() && #[trigger] f.ensures((&s@[i],), o) ==> o == vals[i],
-    ensures r@ == vals.to_set(),
-{
-    let mut out: std::collections::HashSet<String> = std::collections::HashSet::new();
-    let mut i: usize = 0;
-    while i < s.len()
-        invariant
-            i <= s.len(), vals.len() == s@.len(),
-            out@ == vals.take(i as int).to_set(),
-            forall|k: int| 0 <= k < s@.len() ==> f.requires((&#[trigger] s@[k],)),
-            forall|k: int, o: String| 0 <= k < s@.len() && #[trigger] f.ensures((&s@[k],), o) ==> o == vals[k],
-        decreases s.len() - i,
-    {
-        let x = f(&s[i]);
-        out.insert(x);
-        proof {
-            assert(vals.take(i as int + 1) == vals.take(i as int).push(vals[i as int]));
-            assert(vals.take(i as int).push(vals[i as int]).to_set() =~= vals.take(i as int).to_set().insert(vals[i as int])) by {
-                let a = vals.take(i as int); let v = vals[i as int];
-                assert forall|x: String| a.push(v).to_set().contains(x) <==> a.to_set().insert(v).contains(x) by {
-                    if a.push(v).contains(x) { let j = choose|j: int| 0 <= j < a.push(v).len() && a.push(v)[j] == x; if j < a.len() { assert(a[j] == x); } }
-                    if a.contains(x) { let j = choose|j: int| 0 <= j < a.len() && a[j] == x; assert(a.push(v)[j] == x); }
-                    if x == v { assert(a.push(v)[a.len() as int] == x); }
-                }
-            }
-            assert(out@ =~= vals.take(i as int + 1).to_set());
-        }
-        i += 1;
-    }
-    proof { assert(vals.take(s@.len() as int) == vals); }
-    out
 }
 }
-}
-#[allow(unused_imports)] pub use strset::v_map_collect_string_set;
+#[allow(unused_imports)] pub use filterkeys::v_filter_keys;
